@@ -37,6 +37,12 @@ def main():
             vals = sorted(m.value for m in en.PairEnum)
             out["fate"] = "distinct" if vals == sorted([a, b]) else "merged"
             out["py_names"] = sorted(m.name for m in en.PairEnum)
+        elif scope == "enum_default":
+            it = import_pkg(P["package"] + ".input_types")
+            inst = it.PairIn()
+            got = [getattr(inst.e, "value", inst.e), [getattr(x, "value", x) for x in inst.l]]
+            out["got"] = got
+            out["fate"] = "distinct" if got == [a, [b, a]] else "merged"
         elif scope == "variables":
             import inspect
             sent = []
